@@ -138,6 +138,7 @@ namespace hv
             else if (kind == "c2") out = wire_valid<C2>(w, valid, 0, arg(0), arg(1), id, op);
             else if (kind == "c3") out = wire_valid<C3>(w, valid, 0, arg(0), arg(1), arg(2), id, op);
             else if (kind == "sample") out = wire<Sample>(w, arg(0), arg(1), id);
+            else if (kind == "samplemid") out = wire<SampleMid>(w, arg(0), arg(1), arg(2), id);
             else if (kind == "accum") out = wire<Accum>(w, arg(0), id);
             else if (kind == "ticker") out = wire<Ticker>(w, Int{st.geti("count", 3)}, Int{st.geti("period", 1)}, id);
             else if (kind == "timer0") out = wire<Timer0>(w, id);
